@@ -4,6 +4,7 @@
 (*   {"e":"arrive","id":i,"f":f,"t":ticks,"rx":rx,"out":[rec,..]}   (i = 1..n) *)
 (*   {"e":"burst","arr":[arrival,..],"out":[rec,..]}   (queued burst, see BurstEv) *)
 (*   {"e":"close","out":[rec,..],"panic":bool}                                 *)
+(* or {"e":"reset","w":W} {"e":"file",..} for a run of decode1090 (see FileEv).  *)
 (* rec = {"f":f,"t":ticks,"m":[[id,rx],..]}: what deduplicate_messages sent    *)
 (* on its output channel while that arrival was being processed (close: after  *)
 (* the input channel was closed).  Frames are integers; Bad = 512..1023 are the *)
@@ -108,6 +109,22 @@ BurstEv(ev) ==
           /\ dropped' = res.st.dropped /\ out' = res.st.out /\ UNCHANGED <<w, ok>>
      ELSE PrintT(<<"REJECT", l, "burst">>) /\ ok' = FALSE /\ UNCHANGED vars
 
+(* decode1090: {"e":"file","arr":[arrival,..],"out":[rec,..],"panic":bool} - one *)
+(* run of the tool over a JSONL file holding the whole history; "out" is its     *)
+(* complete output in order.  Only the final output is observable, and the tool  *)
+(* has exited: every decodable reception must be in exactly one record, the      *)
+(* records are exactly the reference groups (PropWindowAtExit), shaped as C10    *)
+(* says, in first-arrival order when the clock was monotone.                     *)
+FileEv(ev) ==
+  LET h == [i \in DOMAIN ev.arr |-> [id |-> ev.arr[i].id, f |-> ev.arr[i].f, t |-> ev.arr[i].t, rx |-> ev.arr[i].rx]]
+      o == Stamped(ev.out, 0)
+  IN /\ IF \E i \in DOMAIN h : h[i].id # i THEN PrintT(<<"SELFCHECK", l>>)
+        ELSE IF /\ ~ev.panic
+                /\ PropShape(h, o) /\ PropConservation(h, o)
+                /\ PropWindowAtExit(h, o, w) /\ PropMono(h, o, w)
+             THEN TRUE ELSE PrintT(<<"REJECT", l, "file">>)
+     /\ ok' = FALSE /\ UNCHANGED vars
+
 Init == l = 1 /\ ok = FALSE /\ InitW(0)
 Next == /\ l <= NRec /\ l' = l + 1
         /\ LET ev == Rec[l] IN
@@ -115,6 +132,7 @@ Next == /\ l <= NRec /\ l' = l + 1
            ELSE IF ~ok THEN UNCHANGED <<ok, w, hist, cache, heap, now, out, dropped>>
            ELSE IF ev.e = "arrive" THEN Arrive(ev)
            ELSE IF ev.e = "burst" THEN BurstEv(ev)
+           ELSE IF ev.e = "file" THEN FileEv(ev)
            ELSE CloseEv(ev)
 Spec == Init /\ [][Next]_tvars
 =============================================================================
